@@ -4,7 +4,12 @@ from __future__ import annotations
 import json
 import os
 
+import sys
+
 import vlib
+
+sys.path.insert(0, os.path.join(vlib.VERIF, "tools", "impl"))
+import impl_c16_scalegen as sg  # noqa: E402  (generator shared with the implementation driver)
 
 LEVEL = "proof"
 RULE = ("generated tables rendered per source format (csv-raw/ob-csv through the QUOTE_MINIMAL writer, ob-raw-dump tab-separated, "
@@ -12,7 +17,9 @@ RULE = ("generated tables rendered per source format (csv-raw/ob-csv through the
         "files through estimate_importances_minibatches (rows entering each mini-batch, invalid-line count); namespace map files "
         "through parse_namespace.  non-trivial = line with >= 2 fields containing an empty cell, a delimiter/quote, edge white "
         "space or non-ASCII; stream with accepted AND rejected lines; map with a re-declared id or an f32 type.  "
-        "distinct = distinct canonical inputs")
+        "distinct = distinct canonical inputs.  scale family: 300k csv + 100k tsv + 100k vw DISTINCT generated lines (unique id cell, "
+        "quoted cells with commas / doubled quotes / JSON) and one 300k-line streamed csv file, all in the one implementation process, "
+        "each parsed row judged against the cells it was rendered from (counted in evaluations, one 'distinct' per format)")
 THEOREMS = ["C16_generic_dispatch", "C16_tsv", "C16_tsv_any_terminator", "C16_tsv_physical_lines", "C16_tsv_prefix_refuted",
             "C16_tsv_prefix_refuted_blanks", "C16_csv", "C16_csv_any_terminator", "C16_csv_physical_lines",
             "C16_csv_linebreak_hypothesis_needed", "C16_csv_naive_refuted", "C16_vw", "C16_vw_present", "C16_vw_absent",
@@ -339,6 +346,51 @@ def gen_headers(rng, n):
     return out
 
 
+SCALE_FORMATS = (("csv", 300000), ("tsv", 100000), ("vw", 100000), ("stream", 300000))
+
+
+def gen_scale(rng):
+    """Scale family: n DISTINCT well-formed lines per format parsed in ONE implementation process, judged against the
+    cells they were rendered from (closed form of the model by C16_csv / C16_tsv / C16_vw), plus a sample of the very
+    same lines as ordinary cases so that the closed form is cross-checked against the Coq model in this run."""
+    cases, sample = [], []
+    for fmt, n in SCALE_FORMATS:
+        seed = rng.randrange(1, 1 << 30)
+        sc = {"kind": "scale", "format": fmt, "seed": seed, "n": n, "family": "scale-" + fmt}
+        if fmt == "stream":
+            sc["bsize"] = 50000
+        cases.append(sc)
+        idx = list(range(40)) + [rng.randrange(n) for _ in range(60)] + [n - 1, sg.REJECT_EVERY]
+        for i in idx:
+            line, exp = sg.gen(fmt, seed, i)
+            src = sg.source_of(fmt, i)
+            if fmt in ("csv", "stream"):
+                cells = sg.cells("user" if fmt == "csv" else "srow", seed, i)
+                if exp is None:
+                    cells = cells[:4]
+                sample.append({"kind": "writer", "row": [C(x) for x in cells], "family": "scale-sample"})
+                sample.append(line_case(src, line, sg.CSV_HEADER, family="scale-sample", expect=cells))
+            elif fmt == "tsv":
+                sample.append(line_case(src, line, sg.CSV_HEADER, family="scale-sample", expect=exp))
+            else:
+                sample.append(line_case(src, line, sg.VW_HEADER, fw=sg.VW_FW, delim=" ", family="scale-sample", expect=exp))
+    return cases, sample
+
+
+def seq_case_from(sc, first):
+    """the mis-parsed line preceded by the line it was confused with, as a two-line replay"""
+    cw = first.get("confused_with")
+    fmt = sc["format"]
+    if not cw or first.get("line") is None:
+        return None
+    vw = fmt == "vw"
+    return {"kind": "seq", "sources": [cw["source"], first["source"]], "lines": [cw["line"], first["line"]],
+            "delim": C({"csv": ",", "stream": ",", "tsv": "\t", "vw": " "}[fmt]),
+            "fw": [[C(a), C(b)] for a, b in sg.VW_FW] if vw else None,
+            "header": [C(h) for h in (sg.VW_HEADER if vw else sg.CSV_HEADER)], "family": "scale-pair",
+            "from_scale": {"format": fmt, "seed": sc["seed"], "n": sc["n"], "index_of_earlier_line": cw["index"], "index_of_misparsed_line": first["index"]}}
+
+
 def load_corpus(pid):
     d = os.path.join(vlib.VERIF, "corpus", pid)
     out = []
@@ -383,6 +435,10 @@ def model_expr(c):
         return "read_column_names %s" % nl(c["text"])
     if k == "isspace":
         return "space_chars"
+    if k == "seq":
+        d = c["delim"][0]
+        return "[" + "; ".join("generic_line_parser %s %d %s %s %s" % (SRC.get(s, "UnknownSource"), d, fwlit(c["fw"]), nll(c["header"]), nl(ln))
+                               for s, ln in zip(c["sources"], c["lines"])) + "]"
     return None
 
 
@@ -491,6 +547,32 @@ def compare(c, r, v):
         if sorted(r["codes"]) != sorted(v):
             return ("model:space_chars = {c | chr(c).isspace()}", "white-space set of str.strip() differs from the model", r["codes"], list(v), False)
         return None
+    if k == "seq":
+        ms = [dec_outcome(x) for x in v]
+        if r["rows"] != ms:
+            j = [i for i in range(len(ms)) if r["rows"][i] != ms[i]][0]
+            return ("correspondence:generic_line_parser[%s] = model on a sequence of lines in one process" % c["sources"][j],
+                    "line %d of the sequence is not parsed into ITS fields (the result depends on the lines parsed before)" % j,
+                    r["rows"], ms, False)
+        return None
+    if k == "scale":
+        fmt, n = c["format"], c["n"]
+        exp_rows = n - len(range(0, n, sg.REJECT_EVERY)) if fmt == "stream" else None
+        problems = []
+        if r["mismatches"]:
+            problems.append("%d of %d distinct well-formed lines are not parsed into the cells they were rendered from" % (r["mismatches"], n))
+        if fmt == "stream":
+            if r.get("err"):
+                problems.append("the loop raised " + r["err"])
+            if r["rows_seen"] != exp_rows:
+                problems.append("%d rows entered the mini-batches, expected %d" % (r["rows_seen"], exp_rows))
+            if r["invalid"] != n - exp_rows:
+                problems.append("invalid counter %d, expected %d" % (r["invalid"], n - exp_rows))
+        if problems:
+            return ("correspondence:scale[%s] every parsed row = the cells the line was rendered from" % fmt, "; ".join(problems),
+                    {kk: vv for kk, vv in r.items() if kk != "first"} | {"first_misparsed": r["first"][:2]},
+                    "closed form of the model (C16_csv / C16_tsv / C16_vw / C16_stream_csv): the generated cells", False)
+        return None
     if k == "dispatch":
         exp = {"ob-raw-dump": "parse_ob_raw_feature_information", "ob-vw": "parse_ob_vw_feature_information",
                "ob-csv": "parse_csv_with_description_information", "csv-raw": "parse_csv_raw"}.get(S(c["source"]))
@@ -563,7 +645,7 @@ def nontrivial(c):
             return len(s) > 0
         ex = c.get("expect")
         if ex is not None:
-            cells = [S(x) for x in ex]
+            cells = ["" if x is None else S(x) for x in ex]
             return len(cells) >= 2 and any(x == "" or x != x.strip() or any(ch in x for ch in ',"\t|') or any(ord(ch) > 127 for ch in x)
                                            for x in cells)
         return s.count("|") >= 2
@@ -573,6 +655,8 @@ def nontrivial(c):
     if k == "namespace":
         ks = c.get("line_kinds", [])
         return len(ks) >= 2 and ("3" in ks)
+    if k in ("scale", "seq"):
+        return True
     return False
 
 
@@ -602,6 +686,8 @@ def check(run, replay):
         for _ in range(1500 if thorough else 200):
             cases.append(gen_namespace(rng))
         cases += gen_headers(rng, 60 if thorough else 12)
+        scale_cases, scale_sample = gen_scale(rng)
+        cases += scale_sample + scale_cases
 
     outs, res = evaluate(cases)
     fams = {}
@@ -627,9 +713,11 @@ def check(run, replay):
               "correspondence:QUOTE_MINIMAL writer model = csv.writer",
               "correspondence:streaming loop validity test = model",
               "correspondence:parse_namespace = model",
-              "model:space_chars = str.isspace; header readers on plain headers"]
+              "model:space_chars = str.isspace; header readers on plain headers",
+              "correspondence:scale — 300k csv / 100k tsv / 100k vw distinct lines and one 300k-line streamed file in ONE process: "
+              "every parsed row = the cells the line was rendered from (closed form cross-checked against Coq on sampled lines)"]
     keys = ["correspondence:generic_line_parser", "correspondence:QUOTE_MINIMAL", "correspondence:streaming", "correspondence:parse_",
-            ("model:", "header-reader", "harness:", "correspondence:dispatch", "dispatch:")]
+            ("model:", "header-reader", "harness:", "correspondence:dispatch", "dispatch:"), "correspondence:scale"]
     for nm, key in zip(names_, keys):
         bad = sum(n for ob, n in obligations.items() if ob.startswith(key))
         run.oblige(nm, bad == 0, "" if bad == 0 else "%d cases disagree" % bad)
@@ -638,8 +726,25 @@ def check(run, replay):
         if ob.startswith("harness:") or ob.startswith("model:"):
             run.violation("broken-obligation", ob, case=show(c), impl=show(impl), model=show(model), clause=clause, found_input=False)
             continue
+        if c["kind"] == "scale":
+            # replay = the generator parameters + the first mis-parsed line and the line it was confused with; when those
+            # two lines alone (parsed in that order in one process) reproduce the failure, they are the replayed case
+            firsts = impl.get("first_misparsed") or []
+            pair = seq_case_from(c, firsts[0]) if firsts else None
+            extra = {"generator": {k: c[k] for k in ("format", "seed", "n") if k in c}, "scale_case": c,
+                     "first_misparsed": show(firsts[:2]), "tool": "tools/impl/impl_c16_scalegen.py gen(format, seed, index)"}
+            if pair is not None:
+                o2, _ = evaluate([pair], tag="C16s")
+                if o2[0] is not None and not o2[0][4]:
+                    ob2, clause2, impl2, model2, _ = o2[0]
+                    extra["readable_case"] = show(pair)
+                    extra["scale_clause"] = clause
+                    run.violation("counterexample", ob, case=pair, impl=show(impl2), model=show(model2), clause=clause2, extra=extra)
+                    continue
+            run.violation("counterexample", ob, case=c, impl=show(impl), model=model, clause=clause, extra=extra)
+            continue
         small = c
-        if replay is None and shrunk < 1 and not c.get("family", "").startswith("wf-"):
+        if replay is None and shrunk < 1 and not c.get("family", "").startswith("wf-") and not c.get("family", "").startswith("scale"):
             shrunk += 1
             try:
                 small = shrink(c, ob)
@@ -664,6 +769,11 @@ def check(run, replay):
         if c["kind"] == "line" and "generic" in r:
             key = c["source"] + ":" + ("row" if "row" in r["generic"] else r["generic"]["err"])
             run.cov["impl_outcomes_line"][key] = run.cov["impl_outcomes_line"].get(key, 0) + 1
+    run.cov["scale"] = {c["format"]: {"distinct_lines": c["n"], "seed": c["seed"], "mismatches": r.get("mismatches"),
+                                      **({"rows_seen": r.get("rows_seen"), "invalid": r.get("invalid"), "batches": r.get("batches")}
+                                         if c["format"] == "stream" else {})}
+                        for c, r in zip(cases, res) if c["kind"] == "scale" and "harness_err" not in r}
+    run.evaluations += sum(c["n"] - 1 for c in cases if c["kind"] == "scale")
     run.cov["exhaustive"] = False
     if thorough and replay is None:
         run.cov["exhaustive_small_scope"] = ("every line of length <= 5 over {\" , a LF CR SP} (csv-raw), {TAB a SP LF CR} (ob-raw-dump), "
